@@ -198,17 +198,19 @@ func ruleLogShapes(c *eng.Ctx) {
 	}
 	// first write initialises firstOffset / firstWriteTime; every write updates lastOffset / lastWriteTime
 	if fn := c.Fn(cl + "(*segment).write"); fn != nil {
-		fw := p.Field(clPkg, "segment", "firstWriteTime")
-		first := eng.CmpEdges(fn, eng.Load(fw, nil), eng.IntConst(0), eng.EQ)
+		// "nothing written yet" is firstOffset == -1 (what newSegment and setupIndex leave for an empty segment and what IsEmpty
+		// tests) — a value no write can store. A timestamp is no such mark: messages may carry timestamp 0 (F89).
+		fw := p.Field(clPkg, "segment", "firstOffset")
+		first := eng.CmpEdges(fn, eng.Load(fw, nil), eng.IntConst(-1), eng.EQ)
 		for _, f := range []string{"firstOffset", "firstWriteTime"} {
 			fo := p.Field(clPkg, "segment", f)
 			sts := eng.FieldStores(fn, func(fa *ssa.FieldAddr) bool { return fieldIs(fa, fo) })
 			ok := len(sts) == 1
 			if ok {
 				g, _ := eng.GuardedBy(fn, sts[0], first)
-				ok = g && len(first) > 0 && exactRel(fn, eng.Load(fw, nil), eng.IntConst(0), eng.EQ)
+				ok = g && len(first) > 0 && exactRel(fn, eng.Load(fw, nil), eng.IntConst(-1), eng.EQ)
 			}
-			c.Check(ok, "segment."+f+" set by the first write only", p.Pos(fn.Pos()), "stored exactly on firstWriteTime == 0", "segment."+f+" is not set (only) by the first write: OldestOffset / timestamp lookups report a wrong first message")
+			c.Check(ok, "segment."+f+" set by the first write only", p.Pos(fn.Pos()), "stored exactly on firstOffset == -1", "segment."+f+" is not set exactly when the segment is still empty (firstOffset == -1): with a mark that a message can reproduce — a zero timestamp — every later write moves the first offset, and OldestOffset / timestamp lookups report a wrong first message until the next restart")
 		}
 		// which entry of the batch feeds which field: first* from entries[0], last* from entries[len(entries)-1]
 		fromEntry := func(v ssa.Value, field string, last bool) bool {
